@@ -145,11 +145,14 @@ impl Scenario for FaultScenario {
                     let n_faults = rng.range_usize(1, 3);
                     let mut faults: Vec<Inject> = Vec::new();
                     for _ in 0..n_faults {
-                        let f = Inject {
+                        let mut f = Inject {
                             point: pick_point(rng),
                             occurrence: rng.range(1, n_writes.max(1)) as u32,
                             kind: (*rng.pick(INJECT_KINDS)).to_owned(),
                         };
+                        if f.point == "write:before-rename" && rng.bool() {
+                            f.kind = "temp-vanishes".to_owned();
+                        }
                         if !faults.iter().any(|g| g.point == f.point && g.occurrence == f.occurrence) {
                             faults.push(f);
                         }
@@ -178,6 +181,7 @@ impl Scenario for FaultScenario {
     fn run(&self, ctx: &mut Ctx) -> Result<bool, Violation> {
         clear_handler();
         let scratch = Scratch::new();
+        *crate::child::VANISH_ROOT.lock().expect("root") = Some(scratch.root.clone());
         let root_len = scratch.root.as_os_str().len();
         let store = scratch.store();
         let rt = runtime();
